@@ -159,7 +159,7 @@ func c04R10(c *Ctx, r *Report) {
 		}
 		isW := isFieldStore("config.Option", t.field)
 		found := false
-		for _, f := range funcsWithin(fn) {
+		for _, f := range c.staticallyReachable(fn) {
 			if !funcHas(f, 0, isW) {
 				continue
 			}
